@@ -106,7 +106,7 @@ def run_case(case, ctx):
 
     # where the lines sit in the window: shift all site energies so that the mean transition energy is at the chosen offset from the RWA frequency
     # (the RWA frequency follows the block average, so the offset is produced by the energy spread itself: keep the generator's spread)
-    def spectrum(sysobj, t, tensor=None, hamR=None):
+    def spectrum(sysobj, t, tensor=None, hamR=None, repeat_box=None):
         with contextlib.redirect_stdout(out):
             if tensor is not None:
                 calc = qr.AbsSpectrumCalculator(t, system=sysobj, relaxation_tensor=tensor, effective_hamiltonian=hamR)
@@ -114,7 +114,15 @@ def run_case(case, ctx):
                 calc = qr.AbsSpectrumCalculator(t, system=sysobj)
             calc.bootstrap()
             sp = calc.calculate(raw=True)
-        return numpy.array(sp.axis.data, dtype=float), numpy.array(sp.data, dtype=float), float(calc.rwa)
+            first = (numpy.array(sp.axis.data, dtype=float), numpy.array(sp.data, dtype=float), float(calc.rwa))
+            if repeat_box is not None:
+                # the same calculator asked again, and once more after a second bootstrap
+                sp2 = calc.calculate(raw=True)
+                repeat_box.append((numpy.array(sp2.axis.data, dtype=float), numpy.array(sp2.data, dtype=float)))
+                calc.bootstrap()
+                sp3 = calc.calculate(raw=True)
+                repeat_box.append((numpy.array(sp3.axis.data, dtype=float), numpy.array(sp3.data, dtype=float)))
+        return first
 
     with ctx.lib("system construction", mechanism=None):
         sysobj, t, d0 = build_system()
@@ -130,8 +138,16 @@ def run_case(case, ctx):
     if tensor is not None:
         snaps_before["R"] = sentinels.snapshot(tensor)
         snaps_before["HR"] = sentinels.snapshot(hamR)
+    reps = []
     with ctx.lib("AbsSpectrumCalculator.calculate", mechanism=None):
-        w, S, rwa = spectrum(sysobj, t, tensor, hamR)
+        w, S, rwa = spectrum(sysobj, t, tensor, hamR, repeat_box=reps)
+    for k, (w_r, S_r) in enumerate(reps):
+        ok_r = w_r.shape == w.shape and S_r.shape == S.shape
+        ctx.require("inputs-unchanged", ok_r, {"what": "repeated calculation: shapes", "repeat": k})
+        if ok_r:
+            ctx.check("inputs-unchanged", max(float(numpy.max(numpy.abs(w_r - w))) / max(float(numpy.max(numpy.abs(w))), 1e-300),
+                                              float(numpy.max(numpy.abs(S_r - S))) / max(float(numpy.max(numpy.abs(S))), 1e-300)), 1e-12,
+                      {"what": ["second calculate() on the same calculator", "calculate() after a second bootstrap()"][k], "with_tensor": case["with_tensor"], "N": N})
     snaps_after = {"H": sentinels.snapshot(Hobj)}
     if Dobj is not None:
         snaps_after["D"] = sentinels.snapshot(Dobj)
